@@ -71,3 +71,24 @@ Theorem c03_root_offset_check_is_source :
       gtrue rho c = Some (Z.geb offset 0 && Z.ltb offset (size - roots_len) && Z.eqb len len32).
 Proof. exact Decisions.root_offset_decision. Qed.
 Print Assumptions c03_root_offset_check_is_source.
+
+(* the backward scan: gives up at size <= rootsLen, tests MagicEnd at offsets 12 and 18 of the trailer, else moves down by one byte (Disk.scan) *)
+Theorem c03_scan_stop_is_source :
+  exists c, hd_error (conds 400 scan_loop) = Some c /\
+    forall size : Z, gtrue (upd (upd env0 "atomic.LoadInt64(&s.size)" size) "rootsLen" roots_len) c = Some (Z.leb size roots_len).
+Proof. exact Decisions.scan_stop_decision. Qed.
+Print Assumptions c03_scan_stop_is_source.
+
+Theorem c03_scan_step_is_source :
+  last scan_loop (SOther "") = SExpr (GCall "atomic.AddInt64" [GUn "&" (GVar "s.size"); GInt (-1)]).
+Proof. exact Decisions.scan_step_is_one. Qed.
+Print Assumptions c03_scan_step_is_source.
+
+Theorem c03_scan_magic_offsets_is_source :
+  exists c, nth_error (conds 400 scan_loop) 3 = Some c /\
+    c = GBin "&&" (GCall "bytes.Equal" [GVar "MagicEnd"; GCall "[:]" [GVar "rootsEnd"; GInt 12; GBin "+" (GInt 12) (GCall "len" [GVar "MagicEnd"])]])
+                  (GCall "bytes.Equal" [GVar "MagicEnd"; GCall "[:]" [GVar "rootsEnd"; GBin "+" (GInt 12) (GCall "len" [GVar "MagicEnd"]); GNil]]) /\
+    geval (upd env0 "len(MagicEnd)" (Z.of_nat (List.length g_magic_end))) (GBin "+" (GInt 12) (GCall "len" [GVar "MagicEnd"])) = Some 18%Z /\
+    roots_end_len = 24%Z.
+Proof. exact Decisions.scan_magic_offsets. Qed.
+Print Assumptions c03_scan_magic_offsets_is_source.
